@@ -1,13 +1,171 @@
 /-
   Avt.Spec.C07 — oracle of property C07 (decidable predicates evaluated on implementation states;
   the same definitions the theorems in Avt/Props/C07.lean are stated with).
+
+  C07: erase, insert and delete touch exactly their documented extent.
+
+  The specification is a closed formula per command over `take` / `drop` / `replicate`; it is not a
+  copy of the model (`Line::insert/delete` are rotate+fill, `Buffer::erase` dispatches on a mode,
+  DECALN is a double loop of single-cell prints).
+
+  Covered functions (`coveredEdit`): ED 0/1/2/3, EL 0/1/2, ECH n, ICH n, DCH n, DECALN.
 -/
 import Avt.Spec.Base
 
 namespace Avt.Spec.C07
 open Avt Avt.Spec
 
-def checkStep (_ev : StepEv) : List Verdict := []
+/-! ### one row -/
+
+/-- `k` blank cells carrying `pen` -/
+def blanks (k : Nat) (pen : Pen) : List Cell := List.replicate k (Cell.blank pen)
+
+/-- EL 0: from the cursor to the end of the row; the row stops being soft-wrapped.  In the
+    wrap-pending column (`col = cols`) no cell is erased but the mark is still cleared. -/
+def eraseRight (cols col : Nat) (pen : Pen) (r : Line) : Line :=
+  ⟨r.cells.take col ++ blanks (cols - col) pen, false⟩
+
+/-- EL 1: from the start of the row up to and including the cursor (the last column when the
+    cursor is wrap-pending); the wrap mark stays -/
+def eraseLeft (cols col : Nat) (pen : Pen) (r : Line) : Line :=
+  ⟨blanks (min (col + 1) cols) pen ++ r.cells.drop (min (col + 1) cols), r.wrapped⟩
+
+/-- EL 2 -/
+def eraseRow (cols : Nat) (pen : Pen) (_r : Line) : Line := ⟨blanks cols pen, false⟩
+
+/-- ECH n: `k = min n (cols - col)` cells from the cursor; the mark is cleared exactly when the
+    erased stretch reaches the end of the row (`col + k = cols`, which includes `k = 0` in the
+    wrap-pending column) -/
+def eraseChars (cols col n : Nat) (pen : Pen) (r : Line) : Line :=
+  let k := min n (cols - col)
+  ⟨r.cells.take col ++ blanks k pen ++ r.cells.drop (col + k),
+   if col + k = cols then false else r.wrapped⟩
+
+/-- ICH n: `k` blanks inserted at the cursor, the tail shifted right, what falls off the right
+    edge discarded; wrap mark unchanged -/
+def insertChars (cols col n : Nat) (pen : Pen) (r : Line) : Line :=
+  let k := min n (cols - col)
+  ⟨r.cells.take col ++ blanks k pen ++ (r.cells.drop col).take (cols - col - k), r.wrapped⟩
+
+/-- DCH n: `k` cells deleted at the cursor, the tail shifted left, `k` blanks appended; the row
+    stops being soft-wrapped -/
+def deleteChars (cols col n : Nat) (pen : Pen) (r : Line) : Line :=
+  let k := min n (cols - col)
+  ⟨r.cells.take col ++ r.cells.drop (col + k) ++ blanks k pen, false⟩
+
+/-- DECALN row: 'E' with the default pen in every cell; wrap mark untouched -/
+def alignRow (cols : Nat) (r : Line) : Line := ⟨List.replicate cols ⟨0x45, Pen.default⟩, r.wrapped⟩
+
+/-! ### the view -/
+
+/-- apply `g` to row `row`, leave every other row alone -/
+def onRowOf (v : List Line) (row : Nat) (g : Line → Line) : List Line :=
+  v.take row ++ ((v.drop row).take 1).map g ++ v.drop (row + 1)
+
+/-- `k` fresh (blank, unwrapped) rows carrying `pen` -/
+def blankRows (k cols : Nat) (pen : Pen) : List Line := List.replicate k (Line.blank cols pen)
+
+/-- rows `a..b` flagged as changed -/
+def markRange (d : List Bool) (a b : Nat) : List Bool :=
+  d.take a ++ List.replicate (b - a) true ++ d.drop b
+
+/-- a terminal with a new view and new changed-row flags, everything else as before -/
+def withView (t : Terminal) (v : List Line) (d : List Bool) : Terminal :=
+  { t with buffer := { t.buffer with view := v }, dirtyLines := d }
+
+/-- edit the cursor's row with `g` -/
+def onRow (t : Terminal) (g : Line → Line) : Terminal :=
+  withView t (onRowOf t.buffer.view t.cursor.row g)
+    (markRange t.dirtyLines t.cursor.row (t.cursor.row + 1))
+
+/-- DCH first leaves the wrap-pending column -/
+def leavePending (t : Terminal) : Terminal :=
+  if t.cursor.col ≥ t.cols then
+    { t with cursor := { t.cursor with col := t.cols - 1 }, pendingWrap := false }
+  else t
+
+/-- functions this specification covers -/
+def coveredEdit : Function → Bool
+  | .ed _ | .el _ | .ech _ | .ich _ | .dch _ | .decaln => true
+  | _ => false
+
+/-- the state after a covered function -/
+def editSpec (t : Terminal) : Function → Terminal
+  | .el .toRight => onRow t (eraseRight t.cols t.cursor.col t.pen)
+  | .el .toLeft => onRow t (eraseLeft t.cols t.cursor.col t.pen)
+  | .el .all => onRow t (eraseRow t.cols t.pen)
+  | .ech n => onRow t (eraseChars t.cols t.cursor.col (asUsize n 1) t.pen)
+  | .ich n => onRow t (insertChars t.cols t.cursor.col (asUsize n 1) t.pen)
+  | .dch n =>
+    onRow (leavePending t) (deleteChars t.cols (leavePending t).cursor.col (asUsize n 1) t.pen)
+  | .ed .below =>
+    let v := t.buffer.view
+    let row := t.cursor.row
+    withView t
+      (v.take row ++ ((v.drop row).take 1).map (eraseRight t.cols t.cursor.col t.pen)
+        ++ blankRows (t.rows - (row + 1)) t.cols t.pen)
+      (markRange t.dirtyLines row t.rows)
+  | .ed .above =>
+    let v := t.buffer.view
+    let row := t.cursor.row
+    withView t
+      (blankRows row t.cols t.pen ++ ((v.drop row).take 1).map (eraseLeft t.cols t.cursor.col t.pen)
+        ++ v.drop (row + 1))
+      (markRange t.dirtyLines 0 (row + 1))
+  | .ed .all => withView t (blankRows t.rows t.cols t.pen) (markRange t.dirtyLines 0 t.rows)
+  | .ed .savedLines => t
+  | .decaln => withView t (t.buffer.view.map (alignRow t.cols)) (markRange t.dirtyLines 0 t.rows)
+  | _ => t
+
+/-! ### the extent, in the property's words -/
+
+/-- is cell `(r, c)` of the view inside the extent of `f` executed in `t`? -/
+def extent (t : Terminal) (f : Function) (r c : Nat) : Bool :=
+  let row := t.cursor.row
+  let col := t.cursor.col
+  match f with
+  | .ed .below => r > row || (r == row && c ≥ col)
+  | .ed .above => r < row || (r == row && c ≤ col)
+  | .ed .all => true
+  | .ed .savedLines => false
+  | .el .toRight => r == row && c ≥ col
+  | .el .toLeft => r == row && c ≤ col
+  | .el .all => r == row
+  | .ech n => r == row && col ≤ c && c < col + asUsize n 1
+  | .ich _ => r == row && c ≥ col
+  | .dch _ => r == row && c ≥ min col (t.cols - 1)
+  | .decaln => true
+  | _ => false
+
+/-- does `f` replace its whole extent by blanks (as opposed to shifting cells through it)? -/
+def erases : Function → Bool
+  | .ed _ | .el _ | .ech _ => true
+  | _ => false
+
+/-- cell `(r, c)` of the view -/
+def cellAt (t : Terminal) (r c : Nat) : Option Cell := (t.buffer.view[r]?).bind fun l => l.cells[c]?
+
+/-- wrap mark of row `r` -/
+def markAt (t : Terminal) (r : Nat) : Option Bool := (t.buffer.view[r]?).map Line.wrapped
+
+/-- does `f` executed in `t` clear the soft-wrap mark of the cursor's row? -/
+def clearsMark (t : Terminal) : Function → Bool
+  | .el .toRight | .el .all | .ed .below | .ed .all | .dch _ => true
+  | .ech n => t.cursor.col + min (asUsize n 1) (t.cols - t.cursor.col) == t.cols
+  | _ => false
+
+/-! ### oracle -/
+
+def foldCmd : List Function → Terminal → Bool → Option (Terminal × Bool)
+  | [], t, nt => some (t, nt)
+  | f :: fs, t, nt =>
+    if coveredEdit f && TInv t then foldCmd fs (editSpec t f) (nt || f != .ed .savedLines) else none
+
+def checkStep (ev : StepEv) : List Verdict :=
+  if ev.kind == .resize || ev.funs.isEmpty then [] else
+  match foldCmd ev.funs ev.prev.terminal false with
+  | some (exp, nt) => [check "edit-command-spec" nt (ev.next.terminal == afterCall ev.kind exp)]
+  | none => []
 
 def checkNew (_cols _rows : Nat) (_lim : Option Nat) (_st : Vt) : List Verdict := []
 
